@@ -6,6 +6,40 @@ pub const CLASSES: &[&str] = &[
 	"alphabet", "zeros", "walk", "noise", "flat_regime", "scale_jump", "monotone", "spikes", "plateaus", "impulse", "tiny", "episodes",
 ];
 
+/// A shuffled deck of class names: drawing from it visits every class once before any class repeats, whatever the number
+/// of classes and however the caller's counters are coupled (an earlier `(id + k) % len` scheme visited only every other
+/// class once the number of classes became even).
+pub struct Deck {
+	names: Vec<&'static str>,
+	order: Vec<usize>,
+	pos: usize,
+}
+
+impl Deck {
+	pub fn new(names: &[&'static str]) -> Self {
+		Deck { names: names.to_vec(), order: Vec::new(), pos: 0 }
+	}
+	pub fn values() -> Self {
+		Self::new(CLASSES)
+	}
+	pub fn candles() -> Self {
+		Self::new(CANDLE_CLASSES)
+	}
+	pub fn draw(&mut self, rng: &mut Rng) -> &'static str {
+		if self.pos >= self.order.len() {
+			// Fisher-Yates
+			self.order = (0..self.names.len()).collect();
+			for i in (1..self.order.len()).rev() {
+				let j = rng.below(i as u64 + 1) as usize;
+				self.order.swap(i, j);
+			}
+			self.pos = 0;
+		}
+		self.pos += 1;
+		self.names[self.order[self.pos - 1]]
+	}
+}
+
 /// a value stream of one class
 pub fn stream(rng: &mut Rng, len: usize, class: &str) -> Vec<f64> {
 	let mut v = Vec::with_capacity(len);
